@@ -12,7 +12,7 @@ def build(tier):
     groups.append(skel.norm_kind(report))
     from props import kernels
     krep = {}
-    groups += kernels.tridiagqr_groups(krep) + kernels.hessqr_groups(tier, krep)
+    groups += kernels.tridiagqr_groups(krep) + kernels.hessqr_shape_groups(krep) + kernels.hessqr_groups(tier, krep)
     report["kernels"] = krep
     meta = {"level": "proof", "trusted_base": SG.TRUSTED, "assumptions": SG.ASSUMPTIONS, "extraction": report,
             "not_covered": ["A V = V H + f e', V'BV = I, V'Bf = 0 to rounding level (numerical, not expressible as a dischargeable contract)", 'exact shape of H (bounded kernels, see C08)'],
